@@ -640,10 +640,20 @@ fn check_op(
                 }
                 return Ok(());
             }
-            first_sel(*q)?;
+            // either the queue is selected first (to read its notify offset) and one notification
+            // is written, or - the offset being cached from queue_set - the common configuration
+            // is not touched at all and one notification is written
             let writes: Vec<_> = tr.iter().filter(|a| a.0).collect();
-            if writes.len() != 2 {
-                return Err(format!("notify must perform the queue_select write and exactly one notification write, got {:x?} / notify-relative {:x?}", tr, trn));
+            let untouched_common = !tr.iter().any(|a| a.1 < 56);
+            if untouched_common {
+                if writes.len() != 1 {
+                    return Err(format!("notify without any common-configuration access must perform exactly one notification write, got {:x?} / notify-relative {:x?}", tr, trn));
+                }
+            } else {
+                first_sel(*q)?;
+                if writes.len() != 2 {
+                    return Err(format!("notify must perform the queue_select write and exactly one notification write, got {:x?} / notify-relative {:x?}", tr, trn));
+                }
             }
             let n = with(|w| w.dev.queue(*q).notifies);
             if n == 0 {
